@@ -12,6 +12,9 @@ Definition d_Q (v : val) : Q :=
 Definition d_oracle (v : val) : oracle :=
   dopt (dlist (fun e => (dstr (nth_val 0 e), dopt d_Q (nth_val 1 e)))) v.
 
+Definition d_cfg (v : val) : cfg :=
+  {| c_fixed := dbool (nth_val 0 v); c_oracle := d_oracle (nth_val 1 v) |}.
+
 Definition v_err (e : err) : val :=
   I (match e with EInvalidMediaType => 0 | EInvalidMediaRange => 1 | ENeedOracle => 2 | ECrash => 3 end).
 Definition v_res {A} (f : A -> val) (r : res A) : val :=
@@ -59,20 +62,21 @@ Definition v_obs (o : obs) : val :=
 
 Definition run (v : val) : val :=
   match v with
-  | L [I 0; o; mt; h] => v_res v_Q (quality (d_oracle o) (dstr mt) (dstr h))
-  | L [I 1; o; cs; h] => v_res (vopt vstr) (best_match (d_oracle o) (dlist dstr cs) (dstr h))
-  | L [I 2; o; hdr; mt] => v_res vbool (client_accepts (d_oracle o) (dopt dstr hdr) (dstr mt))
-  | L [I 3; o; hdr; cs] => v_res (vopt vstr) (client_prefers (d_oracle o) (dopt dstr hdr) (dlist dstr cs))
+  | L [I 0; o; mt; h] => v_res v_Q (quality (d_cfg o) (dstr mt) (dstr h))
+  | L [I 1; o; cs; h] => v_res (vopt vstr) (best_match (d_cfg o) (dlist dstr cs) (dstr h))
+  | L [I 2; o; hdr; mt] => v_res vbool (client_accepts (d_cfg o) (dopt dstr hdr) (dstr mt))
+  | L [I 3; o; hdr; cs] => v_res (vopt vstr) (client_prefers (d_cfg o) (dopt dstr hdr) (dlist dstr cs))
   | L [I 4; line] => let '(k, p) := parse_header (dstr line) in L [vstr k; v_params p]
   | L [I 5; o; init; fresh; ops] =>
-    let '(w, obs) := run_ops (d_oracle o) [new_handlers (d_data init) (dlist dN fresh)]
+    let '(w, obs) := run_ops (d_cfg o) [new_handlers (d_data init) (dlist dN fresh)]
                              (dlist (fun p => (dnat (nth_val 0 p), d_op (nth_val 1 p))) ops) in
     L [vlist v_obs obs; vlist (fun h => v_data (h_data h)) w]
-  | L [I 6; o; d; k] => v_rres (resolve_uncached (d_oracle o) (d_data d) (d_ckey k))
-  | L [I 7; o; mt; h; q] => vN (quality_ok (d_oracle o) (dstr mt) (dstr h) (d_Q q))
+  | L [I 6; o; d; k] => v_rres (resolve_uncached (d_cfg o) (d_data d) (d_ckey k))
+  | L [I 7; o; mt; h; q] => vN (quality_ok (d_cfg o) (dstr mt) (dstr h) (d_Q q))
   | L [I 8; pairs; r] =>
     vbool (best_relb (dlist (fun p => (dstr (nth_val 0 p), d_Q (nth_val 1 p))) pairs) (dopt dstr r))
   | L [I 9; s] => vopt v_Q (py_float_dec (dstr s))
+  | L [I 10; f; h] => vlist vstr (split_media_ranges (dbool f) (dstr h))
   | _ => L [I (-1)]
   end.
 
